@@ -68,6 +68,8 @@ class Gamma:
         r = self.rng("leaf", tag, nid, tok)
         if tok == "=":
             return "<%s/>" % tag if nid == NONE else "<%s>%s</%s>" % (tag, escape(nid), tag)
+        if tok.startswith("e:") and tag != "p":       # an empty element (e.g. a blank <roEdStart/>)
+            return "<%s/>" % tag if r.random() < 0.5 else "<%s></%s>" % (tag, tag)
         if tag == "roEdStart":
             k = int(tok.split(":")[1]) if tok.startswith("ed:") else 0
             return "<roEdStart>2020-01-01T%02d:30:00</roEdStart>" % (10 + k)
@@ -102,7 +104,7 @@ class Gamma:
                 return "<p>  \t </p>"
             return "<p>%s %s</p>" % (escape(self.text(r)), escape(tok))
         if tag == "roDelete":
-            return "<roDelete><roID>RO1</roID>%s</roDelete>" % self.marker(tok)
+            return "<roDelete><roID>%s</roID>%s</roDelete>" % ("RO-other" if tok.endswith(".foreign") else "RO1", self.marker(tok))
         # any other metadata leaf: text, sometimes attributes and children
         attrs = ""
         if r.random() < 0.4:
@@ -118,8 +120,14 @@ class Gamma:
         ind = "\n" + "  " * depth
         return ind + ind.join(parts) + "\n" + "  " * (depth - 1)
 
+    def attrs(self, tok):
+        """attributes of a container element whose token says it has some ("a:...")"""
+        if isinstance(tok, str) and tok.startswith("a:"):
+            return " verif=%s mode=%s" % (quoteattr(tok), quoteattr("x & <y>"))
+        return ""
+
     def story(self, n, tag="story", depth=3):
-        return "<%s>%s</%s>" % (tag, self.join([self.leaf(k) for k in n["kids"]], depth), tag)
+        return "<%s%s>%s</%s>" % (tag, self.attrs(n["tok"]), self.join([self.leaf(k) for k in n["kids"]], depth), tag)
 
     def child(self, n, depth=3):
         if n["tag"] == "story":
@@ -169,7 +177,7 @@ class Gamma:
             if m["bodyPos"] > 0:
                 body = "<storyBody>%s</storyBody>" % self.join([self.leaf(k) for k in m["body"]], 3)
                 parts.insert(m["bodyPos"] - 1, body)
-            base = "<roStorySend>%s</roStorySend>" % self.join(parts, 2)
+            base = "<roStorySend%s>%s</roStorySend>" % (self.attrs(m.get("stok")), self.join(parts, 2))
         elif cls == "StoryAppend":
             base = self.wrap("roStoryAppend", [roid] + kids())
         elif cls == "StoryDelete":
